@@ -105,7 +105,7 @@ def run_case(case):
     merged = 0
     for v in leaves:
         g = vo.get_group(v)
-        if counts[v] > 0 and g != ref[v]:
+        if g != ref[v]:  # never-observed values included: their frequency is 0 < min_freq
             viol.append({"kind": "wrong-group", "what": f"value {v!r} (count {counts[v]}) is in group {g!r}, reference model says {ref[v]!r}"})
         if g != v:
             merged += 1
